@@ -103,6 +103,22 @@ func GetReqDecoder(rt reflect.Type, byTag string, config *DecodeConfig) (Decoder
 	}, needValidate, nil
 }
 
+// elemMayCarryRules reports whether the elements of a slice, array or map may be
+// structs with validation rules of their own. The decoder does not walk into
+// elements, the validator does: such a type has to be validated after binding.
+func elemMayCarryRules(t reflect.Type) bool {
+	for t.Kind() == reflect.Ptr {
+		t = t.Elem()
+	}
+	switch t.Kind() {
+	case reflect.Struct, reflect.Interface:
+		return true
+	case reflect.Slice, reflect.Array, reflect.Map:
+		return elemMayCarryRules(t.Elem())
+	}
+	return false
+}
+
 type parentInfos struct {
 	Types    []reflect.Type
 	Indexes  []int
@@ -139,13 +155,13 @@ func getFieldDecoder(pInfo parentInfos, field reflect.StructField, index int, by
 	// slice/array field decoder
 	if field.Type.Kind() == reflect.Slice || field.Type.Kind() == reflect.Array {
 		dec, err := getSliceFieldDecoder(field, index, fieldTagInfos, pInfo.Indexes, config)
-		return dec, needValidate, err
+		return dec, needValidate || elemMayCarryRules(field.Type.Elem()), err
 	}
 
 	// map filed decoder
 	if field.Type.Kind() == reflect.Map {
 		dec, err := getMapTypeTextDecoder(field, index, fieldTagInfos, pInfo.Indexes, config)
-		return dec, needValidate, err
+		return dec, needValidate || elemMayCarryRules(field.Type.Elem()), err
 	}
 
 	// struct field will be resolved recursively
